@@ -118,7 +118,7 @@ func newEqualExprNode() ExprNode { return &equalExprNode{} }
 func (ee *equalExprNode) Run(ctx context.Context, currField string, tagExpr *TagExpr) interface{} {
 	v0 := ee.leftOperand.Run(ctx, currField, tagExpr)
 	v1 := ee.rightOperand.Run(ctx, currField, tagExpr)
-	if v0 == v1 {
+	if ifaceEqual(v0, v1) {
 		return true
 	}
 	if s0, ok := toFloat64(v0, false); ok {
@@ -142,6 +142,17 @@ func (ee *equalExprNode) Run(ctx context.Context, currField string, tagExpr *Tag
 		return v1 == nil
 	}
 	return false
+}
+
+// ifaceEqual reports v0 == v1. Operands can be field values of any type: two values of the same
+// uncomparable type (slices, maps) make == panic, they are reported as not equal instead.
+func ifaceEqual(v0, v1 interface{}) (eq bool) {
+	defer func() {
+		if recover() != nil {
+			eq = false
+		}
+	}()
+	return v0 == v1
 }
 
 type notEqualExprNode struct{ equalExprNode }
